@@ -456,6 +456,13 @@ func specialStreams(c *specialCtx) {
 		if len(be.sizes) == 0 || be.sizes[len(be.sizes)-1] != [2]int{cs.W, cs.H} {
 			c.violation("resize-forward", fmt.Sprintf("Resize(%d,%d) forwarded %v to the backend", cs.W, cs.H, be.sizes), payload)
 		}
+		// every Resize is forwarded, also one that does not change the size (the pty may not have it yet)
+		nsz := len(be.sizes)
+		_ = im.term.Resize(cs.W, cs.H)
+		if len(be.sizes) != nsz+1 || be.sizes[len(be.sizes)-1] != [2]int{cs.W, cs.H} {
+			c.violation("resize-forward", fmt.Sprintf("a repeated Resize(%d,%d) was not forwarded to the backend (%v)", cs.W, cs.H, be.sizes[nsz:]), payload)
+		}
+		fe.resync(cs.W, cs.H)
 		im.evMark = len(fe.events)
 		im.observe(true)
 		// lock-step against the model fed the bytes the loop must interpret
@@ -560,11 +567,21 @@ func specialStreams(c *specialCtx) {
 	c.parallel(c.n/10+8, func(i int, d *driver) {
 		readerBufferCheck(c, d, newPrng(uint64(c.seed)*77+uint64(i)), i)
 	})
+	{
+		be := &scriptBackend{}
+		vt := te.VerifNew(nil, be, te.TextReadModeRune, false)
+		_ = vt.Terminal().Resize(80, 14)
+		if len(be.sizes) != 1 || be.sizes[0] != [2]int{80, 14} {
+			c.violation("resize-forward", fmt.Sprintf("Resize(80,14) on a fresh terminal forwarded %v", be.sizes), nil)
+		}
+	}
 	// PTY backend: h rows and w columns
 	var pb te.PTYBackend
 	if slave, err := pb.Open(); err == nil {
-		for _, sz := range [][2]int{{80, 24}, {1, 1}, {132, 50}, {7, 300}} {
-			if err := pb.SetSize(sz[0], sz[1]); err != nil {
+		// through the terminal, starting with the size the buffers already have
+		ptyTerm := te.VerifNew(nil, &pb, te.TextReadModeRune, false).Terminal()
+		for _, sz := range [][2]int{{80, 14}, {80, 14}, {80, 24}, {1, 1}, {132, 50}, {7, 300}} {
+			if err := ptyTerm.Resize(sz[0], sz[1]); err != nil {
 				continue
 			}
 			rows, cols, err := pty.Getsize(slave)
@@ -695,6 +712,7 @@ func (p *pipeBackend) Write(b []byte) (int, error) {
 func (p *pipeBackend) SetSize(w, h int) error { return nil }
 
 type lockProbeFrontend struct {
+	next     te.Frontend // optional: callbacks are forwarded
 	vt       atomic.Pointer[te.VerifTerm]
 	unlocked atomic.Int64
 	calls    atomic.Int64
@@ -717,14 +735,54 @@ func (f *lockProbeFrontend) probe() {
 		}
 	}
 }
-func (f *lockProbeFrontend) Bell()                                    { f.probe() }
-func (f *lockProbeFrontend) RegionChanged(te.Region, te.ChangeReason) { f.probe() }
-func (f *lockProbeFrontend) ScrollLines(int)                          { f.probe() }
-func (f *lockProbeFrontend) CursorMoved(int, int)                     { f.probe() }
-func (f *lockProbeFrontend) StyleChanged(te.Style)                    { f.probe() }
-func (f *lockProbeFrontend) ViewFlagChanged(te.ViewFlag, bool)        { f.probe() }
-func (f *lockProbeFrontend) ViewIntChanged(te.ViewInt, int)           { f.probe() }
-func (f *lockProbeFrontend) ViewStringChanged(te.ViewString, string)  { f.probe() }
+func (f *lockProbeFrontend) Bell() {
+	f.probe()
+	if f.next != nil {
+		f.next.Bell()
+	}
+}
+func (f *lockProbeFrontend) RegionChanged(r te.Region, c te.ChangeReason) {
+	f.probe()
+	if f.next != nil {
+		f.next.RegionChanged(r, c)
+	}
+}
+func (f *lockProbeFrontend) ScrollLines(n int) {
+	f.probe()
+	if f.next != nil {
+		f.next.ScrollLines(n)
+	}
+}
+func (f *lockProbeFrontend) CursorMoved(x, y int) {
+	f.probe()
+	if f.next != nil {
+		f.next.CursorMoved(x, y)
+	}
+}
+func (f *lockProbeFrontend) StyleChanged(s te.Style) {
+	f.probe()
+	if f.next != nil {
+		f.next.StyleChanged(s)
+	}
+}
+func (f *lockProbeFrontend) ViewFlagChanged(v te.ViewFlag, b bool) {
+	f.probe()
+	if f.next != nil {
+		f.next.ViewFlagChanged(v, b)
+	}
+}
+func (f *lockProbeFrontend) ViewIntChanged(v te.ViewInt, n int) {
+	f.probe()
+	if f.next != nil {
+		f.next.ViewIntChanged(v, n)
+	}
+}
+func (f *lockProbeFrontend) ViewStringChanged(v te.ViewString, s string) {
+	f.probe()
+	if f.next != nil {
+		f.next.ViewStringChanged(v, s)
+	}
+}
 
 // lockScenario is one concurrent scenario; it exits non-zero with a message on a protocol
 // violation. Races are reported by the race runtime, deadlocks by the parent's timeout.
@@ -738,9 +796,13 @@ func lockScenario(seed int64) int {
 	if r.chance(1, 4) {
 		mode = te.TextReadModeGrapheme
 	}
+	// the probing frontend forwards to a TTYFrontend that another goroutine attaches and detaches
+	tty := te.NewTTYFrontend(nil, io.Discard)
+	fe.next = tty
 	vt := te.VerifNew(fe, tee, mode, r.chance(1, 5))
 	fe.vt.Store(vt)
 	term := vt.Terminal()
+	tty.SetTerminal(term)
 	_ = term.Resize(20, 6)
 	done := vt.StartLoop()
 
@@ -850,6 +912,27 @@ func lockScenario(seed int64) int {
 			time.Sleep(time.Duration(rr.intn(300)) * time.Microsecond)
 		}
 	}()
+	attachDone := make(chan struct{})
+	var attaches atomic.Int64
+	go func() { // a UI goroutine attaching and detaching the mirror
+		defer close(attachDone)
+		rr := newPrng(uint64(seed) + 4)
+		for {
+			select {
+			case <-stop:
+				return
+			default:
+			}
+			tty.Attach(te.Region{X: rr.intn(5), Y: rr.intn(3), X2: 5 + rr.intn(20), Y2: 3 + rr.intn(6)})
+			attaches.Add(1)
+			if rr.chance(1, 2) {
+				tty.Detach()
+			}
+			if rr.chance(1, 3) {
+				tty.SetFocus(rr.chance(1, 2))
+			}
+		}
+	}()
 	// wait for the writer, then stop the others
 	time.Sleep(50 * time.Millisecond)
 	writerDone := make(chan struct{})
@@ -866,6 +949,12 @@ func lockScenario(seed int64) int {
 		pw.CloseWithError(errors.New("scenario over"))
 	}()
 	wg.Wait()
+	select {
+	case <-attachDone:
+	case <-time.After(8 * time.Second):
+		fmt.Printf("deadlock: TTYFrontend.Attach did not return (%d attaches completed) while the read loop was delivering callbacks\n", attaches.Load())
+		return 7
+	}
 	pw.Close()
 	select {
 	case <-done:
